@@ -54,8 +54,12 @@ def main():
     rows = [l.rstrip("\n").split("\t") for l in open(os.path.join(MS, "stage1.tsv"))]
     rows = sorted(r for r in rows if r[1] == "survives")
     only = os.environ.get("ONLY")
+    if os.environ.get("REVERSE"):
+        rows.reverse()
     for r in rows:
         mid, _, loc, fn, desc = r[0], r[1], r[2], r[3], r[4]
+        if os.path.exists(p2) and any(l.startswith(mid + "\t") for l in open(p2)):
+            continue
         if mid in done or (only and not re.search(only, "\t".join(r))):
             continue
         w = os.path.join(MS, "w-" + mid)
